@@ -450,10 +450,14 @@ def same_state(a: str, b: str) -> bool:
     to callback names (counted in _NAME_ONLY, reported in the evidence, never an alarm by itself)"""
     if a == b:
         return True
-    for ghost in ("slog", "tx"):
-        if f" {ghost}=[?]" in a:   # ghost not observable on the implementation (private name changed): not compared
-            a = re.sub(rf" {ghost}=\[[^\]]*\]", "", a)
-            b = re.sub(rf" {ghost}=\[[^\]]*\]", "", b)
+    # columns the implementation could not render (private name or layout changed) are not compared; the columns come in
+    # a fixed order, a column ends where the next one starts (subscription keys contain brackets themselves)
+    order = ["found", "subs", "slog", "tx"]
+    for i, ghost in enumerate(order):
+        if f" {ghost}=[?]" in a:
+            nxt = rf"(?= {order[i + 1]}=\[)" if i + 1 < len(order) else "$"
+            a = re.sub(rf" {ghost}=\[.*?\]{nxt}", "", a)
+            b = re.sub(rf" {ghost}=\[.*?\]{nxt}", "", b)
     if a == b:
         return True
     ca, cb = canon_state(a), canon_state(b)
